@@ -33,6 +33,8 @@ RunResult run_plan(const Plan& p, const RunOpts& ro, Stats* stats);
 // run in a forked child; a crash, sanitizer report, exceeded step budget or watchdog becomes a violation of `prop`
 RunResult run_plan_isolated(const Plan& p, const RunOpts& ro, Stats* stats);
 RunOpts opts_for(const Plan& p);
+void start_solo_server(); // fork the pristine solo-oracle server (call before the first library call, after settings are final)
+void stop_solo_server();
 
 // delta debugging restricted to one violation class
 Plan shrink_plan(const Plan& p, const std::string& clause, int* reruns);
